@@ -69,7 +69,7 @@ INV_NAMES = {0: "", 1: "InvRTCNoNesting", 2: "InvQuiescent", 3: "InvExactlyOneAc
 
 
 def validate_batch(batch, module="Trace_System.tla", cfg="Trace_System.cfg", shards=16,
-                   timeout=900, jvm=()):
+                   timeout=900, jvm=(), inv_names=None, payload=None):
     """batch: list of {"classes": [...], "lines": [...]}.  Returns (verdicts, stats) where
     verdicts[k] = {"ok": bool, "matched": n_lines_consumed, "inv": name} aligned with batch."""
     n = len(batch)
@@ -85,7 +85,10 @@ def validate_batch(batch, module="Trace_System.tla", cfg="Trace_System.cfg", sha
         idxs = parts[si]
         path = os.path.join(wd, f"batch_{si}.json")
         with open(path, "w") as f:
-            json.dump([{"classes": batch[k]["classes"], "lines": batch[k]["lines"]} for k in idxs], f)
+            if payload is None:
+                json.dump([{"classes": batch[k]["classes"], "lines": batch[k]["lines"]} for k in idxs], f)
+            else:
+                json.dump([payload(batch[k]) for k in idxs], f)
         rc, out, wall = run_tlc(module, cfg, env={"BATCH_FILE": path}, workers=1, timeout=timeout, jvm=jvm)
         vs = VERDICT_RE.findall(out)
         if len(vs) != len(idxs):
@@ -106,7 +109,7 @@ def validate_batch(batch, module="Trace_System.tla", cfg="Trace_System.cfg", sha
                     k = parts[si][int(t) - 1]
                     nlines = len(batch[k]["lines"])
                     results[k] = {"ok": verdict == "ACCEPT", "matched": max(0, int(reached) - 1),
-                                  "lines": nlines, "inv": INV_NAMES.get(int(inv), str(inv))}
+                                  "lines": nlines, "inv": (inv_names or INV_NAMES).get(int(inv), str(inv))}
     except MachineryError:
         raise
     else:
